@@ -41,6 +41,16 @@ def handle (ws : List String) : String :=
       match unhex hx >>= Sexp.parse with
       | some s => runPost s
       | none => "err bad-sexp"
+  | "trnorm" :: toks =>
+      -- entries of a TR card after MIP (numbers, `j` for a placeholder) -> the 12 numbers of normalize_transform
+      (match toks.mapM (fun t => if t == "j" then some none else (parseFloat? t).map some) with
+       | none => "err bad-number"
+       | some tr =>
+         match normTransform (1e-10 : Float) tr with
+         | .ok l => "ok " ++ " ".intercalate (l.map fun v => toString v.toBits)
+         | .error .mMinusOne => "ok error m"
+         | .error .malformed => "ok error malformed"
+         | .error .zeroDivision => "ok error zerodiv")
   | "rescale" :: rho :: frs =>
       -- rescale_fractions on doubles: concentrations c_i = f_i * rho / sum f
       (match parseFloat? rho, frs.mapM parseFloat? with
